@@ -937,6 +937,9 @@ class Gen(object):
         want_raise = 'F3' in self.p.faults and (r.random() < 0.5 or 'F4' not in self.p.faults)
         site = r.choice(SITES)
         op = {'op': 'cb_arm', 'slot': k, 'k': r.randrange(3), 'site': site}
+        if r.random() < 0.2:
+            op['unregister'] = True       # F7: one-shot callback that removes itself when notified
+            return op
         if want_raise:
             op['raise'] = True
         else:
